@@ -15,12 +15,20 @@ InstOf(c) == [W |-> c.W, H |-> c.H, items |-> c.items]
 
 LbNames == <<"Instance.lower_bound_bins", "BinCount.lower_bound", "InstanceSpace.min_bins">>
 
+\* the three bounds every PackingResult record reports (packing_result._DEFAULT_BOUNDS); the DAMV column on its
+\* own is only required to be a lower bound, the other two also dominate the area bound
+RNames == <<"PackingResult.bins.lowerBound", "PackingResult.bins.lowerBound.geometric",
+            "PackingResult.bins.lowerBound.damv">>
+RLbs(c) == IF "rlbs" \in DOMAIN c THEN c.rlbs ELSE <<>>
+
 RECURSIVE WitClause(_, _, _, _)
 WitClause(inst, c, ws, i) ==
   IF i > Len(ws) THEN "ok"
   ELSE IF ~Feasible(inst, ws[i].rows, ws[i].nb) THEN "driver-infeasible-witness"
-  ELSE LET bad == {k \in 1..Len(c.lbs) : c.lbs[k] > ws[i].nb} IN
+  ELSE LET bad == {k \in 1..Len(c.lbs) : c.lbs[k] > ws[i].nb}
+           rbad == {k \in 1..Len(RLbs(c)) : RLbs(c)[k] > ws[i].nb} IN
        IF bad # {} THEN "bound-exceeds-feasible-packing:" \o LbNames[SetMin(bad)]
+       ELSE IF rbad # {} THEN "bound-exceeds-feasible-packing:" \o RNames[SetMin(rbad)]
        ELSE WitClause(inst, c, ws, i + 1)
 
 Verdict(c) ==
@@ -29,7 +37,9 @@ Verdict(c) ==
   ELSE LET geo == GeoLB(inst)
            \* min_bins is min(lb, n_items): never below the area bound either, since geo <= n_items
            low == {k \in 1..Len(c.lbs) : c.lbs[k] < geo}
+           rlow == {k \in (1..Len(RLbs(c))) \cap {1, 2} : RLbs(c)[k] < geo}
        IN IF low # {} THEN "bound-below-area-bound:" \o LbNames[SetMin(low)]
+          ELSE IF rlow # {} THEN "bound-below-area-bound:" \o RNames[SetMin(rlow)]
           ELSE WitClause(inst, c, c.wit, 1)
 
 Init == tid = 0
